@@ -273,6 +273,10 @@ func keyFromOwnKeySet(g *load.G, s crashSite) string {
 				}
 				pm := callee.Type.Params.List[0].Names[0].Name
 				rets := returnsOf(callee)
+				// the helper only names the library's key collection of its parameter
+				if len(rets) == 1 && len(rets[0].Results) == 1 && libKeysOf(nospace(rets[0].Results[0]), pm) && !written {
+					return "the key ranges over " + nospace(rngX) + ", and " + callee.Name.Name + " returns the keys of its argument as collected by the library; " + m + " is not modified in this function"
+				}
 				okRet := len(rets) > 0
 				retVar := ""
 				for _, rs := range rets {
